@@ -274,3 +274,78 @@ def u_svd(U):
         U.post('all-but-the-last-core-orthonormal (hypothesis of L-TTSVD)', p,
                z3.Implies(z3.And(0 <= tt, tt < d - 1), _orthL(Ys.arr[tt])), axioms=AXS, mode='ematch')
         U.canary('canary-last-core-orthonormal', p, _orthL(Ys.arr[d - 1]), axioms=AXS)
+
+
+# ----------------------------------------------------------------------------------------------
+# svd_incomplete: exception-freedom of the array plumbing and shape of the result (C20), shape tier.
+# Layout contract of sample_tt (precondition): idx is increasing from 0 to the number of samples, block `mode` holds
+# blk[mode] * idx_many[mode] samples, idx_many >= 1; all sample indices are non-negative.
+
+def call_get_interface(ex, st, args, kwargs, node):
+    """teneva.get(Y[:mode], i, _to_item=False): the (1 x r) left interface row of the cores built so far."""
+    Ys = st.deref(args[0])
+    i = st.deref(args[1])
+    if kwargs.get('_to_item') is not False or not (isinstance(Ys, VSeq) and Ys.tag == 'core'):
+        raise M.Unsupported('get: only the _to_item=False call of svd_incomplete is modelled here')
+    ex.oblige(st, 'call-pre', 'get: one index per core', z3.And(Ys.n >= 1, Z(i.shape[0]) == Ys.n) if isinstance(i, VArr) and i.ndim == 1
+              else False, node)
+    M.used('teneva.get(Y, i, _to_item=False) -> array of shape (1, r_last) (undocumented service flag; contract assumed)')
+    return VArr((1, T.d2(Ys.arr[Ys.n - 1])), None, None)
+
+
+@unit('svd.svd_incomplete.shapes', props=('C20',))
+def u_svd_incomplete(U):
+    fn = U.func('svd', 'svd_incomplete')
+    st = U.state()
+    IA = z3.ArraySort(z3.IntSort(), z3.IntSort())
+    mI, d = z3.Ints('mI d')
+    idx, idm, blk = z3.Const('idx', IA), z3.Const('idx_many', IA), z3.Const('blk', IA)
+    I = VArr((mI, d), None, None, 'i')
+    I.nonneg = True
+    Yv = VArr((mI,), None, None)
+    e, r = z3.Real('e'), z3.Real('r')
+    cap = z3.ToInt(r)
+    capf = z3.If(cap >= 1, cap, 1)
+    t, t2 = z3.Ints('t!i t2!i')
+
+    def inv(ex, s, j):
+        Ys = s.deref(s.vars['Y_res'])
+        mode = j + 1
+        return [('one-core-per-processed-mode', Ys.n == mode),
+                ('first-rank-1', T.d0(Ys.arr[0]) == 1),
+                ('cores-positive', z3.ForAll([t], z3.Implies(z3.And(0 <= t, t < mode), z3.And(T.d0(Ys.arr[t]) >= 1, T.d2(Ys.arr[t]) >= 1)),
+                                             patterns=[Ys.arr[t]])),
+                ('neighbour-ranks-match', z3.ForAll([t, t2], z3.Implies(z3.And(0 <= t, t2 == t + 1, t2 < mode), T.d2(Ys.arr[t]) == T.d0(Ys.arr[t2])),
+                                                    patterns=[z3.MultiPattern(Ys.arr[t], Ys.arr[t2])])),
+                ('ranks-within-cap', z3.ForAll([t], z3.Implies(z3.And(0 <= t, t < mode), T.d2(Ys.arr[t]) <= capf), patterns=[Ys.arr[t]])),
+                ('last-core-closes-with-rank-1', z3.Implies(mode == d, T.d2(Ys.arr[d - 1]) == 1))]
+
+    def inv_inner(ex, s, j):
+        G = s.vars['G']
+        ok = isinstance(G, VArr) and G.ndim == 3
+        return [('G-shape-kept', z3.BoolVal(ok))] + ([('G-dims', z3.And(Z(G.shape[0]) == Z(s.vars['r0']), Z(G.shape[1]) == Z(s.vars['n']),
+                                                                      Z(G.shape[2]) == Z(s.vars['r1'])))] if ok else [])
+
+    ex = U.executor(fn, loops={0: {'inv': inv}, 1: {'inv': inv_inner}}, axioms=T.axioms('shape', 'mulI'),
+                    callees={'act_one.get': call_get_interface}, type_hints={'Y_res': 'tt'}, lenient=True)
+    st.vars.update(I=I, Y=Yv, idx=VArr((d + 1,), idx, 'ivec', 'i'), idx_many=VArr((d,), idm, 'ivec', 'i'), e=e, r=r)
+    pre = [d >= 2, mI >= 1, e >= 0, r >= 1, idx[0] == 0, idx[d] == mI,
+           z3.ForAll([t], z3.Implies(z3.And(0 <= t, t < d), z3.And(idm[t] >= 1, blk[t] >= 1)), patterns=[idm[t]]),
+           z3.ForAll([t, t2], z3.Implies(z3.And(0 <= t, t2 == t + 1, t2 <= d), idx[t2] - idx[t] == blk[t] * idm[t]),
+                     patterns=[z3.MultiPattern(idx[t], idx[t2])]),
+           z3.ForAll([t, t2], z3.Implies(z3.And(0 <= t, t2 == t + 1, t2 <= d), idx[t] < idx[t2]), patterns=[z3.MultiPattern(idx[t], idx[t2])]),
+           z3.ForAll([t], z3.Implies(z3.And(0 <= t, t <= d), z3.And(idx[t] >= 0, idx[t] <= mI)), patterns=[idx[t]]),
+           idm[d - 1] == 1, idm[0] >= 1]
+    res = U.run(ex, st, pre=pre)
+    U.cover('precondition-satisfiable', U.pre, axioms=ex.axioms)
+    tt = z3.Int('tt')
+    for p, o in res:
+        if o.kind != 'return':
+            U.post('no-exception', p, False, axioms=ex.axioms)
+            continue
+        Ys = p.deref(o.value)
+        U.post('one-core-per-mode', p, Ys.n == d, axioms=ex.axioms)
+        U.post('boundary-ranks-1', p, z3.And(T.d0(Ys.arr[0]) == 1, T.d2(Ys.arr[d - 1]) == 1), axioms=ex.axioms)
+        U.post('neighbour-ranks-match', p, z3.Implies(z3.And(0 <= tt, tt < d - 1), T.d2(Ys.arr[tt]) == T.d0(Ys.arr[tt + 1])), axioms=ex.axioms)
+        U.post('ranks-within-cap', p, z3.Implies(z3.And(0 <= tt, tt < d - 1), T.d2(Ys.arr[tt]) <= capf), axioms=ex.axioms)
+    U.canary('canary-unreachable', U.pre, False, axioms=ex.axioms)
